@@ -1,5 +1,29 @@
-import Cellml.Basic.Sexp
-/-! Channel C05 of the model driver (stub: not built yet). -/
+import Cellml.Expr.Wire
+/-! Channel C05: unit conversion of expressions. -/
 namespace C05
-def handle (_args : List Sexp) : Sexp := .atom "not-implemented"
+open Sexp Expr.Wire
+
+def handle (args : List Sexp) : Sexp :=
+  match setup args with
+  | some (ctx, [.list (.atom "jobs" :: js)]) =>
+      .list [.list (.atom "defs" :: ctx.defs), .list (.atom "results" :: js.map (fun j =>
+        match j with
+        | .list [s, t] =>
+            let tgt : Option (Option Container) := match t with
+              | .atom "none" => some none
+              | u => (resolveUnit ctx.w u).map some
+            match E.ofSexpWith? (resolveUnit ctx.w) s, tgt with
+            | some e, some tgt =>
+                match Convert.convert ctx.reg ctx.Γ e tgt with
+                | .ok r =>
+                    let strict := match Infer.traverse ctx.reg ctx.Γ r.e with
+                      | .ok (_, u) => .list (.atom "ok" :: unitReply ctx.reg u)
+                      | .error err => errReply err
+                    .list [.atom "ok", .list [.atom "expr", r.e.toSexp], .list [.atom "wc", ofBool r.wc],
+                           .list [.atom "same", ofBool r.same], .list (.atom "unit" :: unitReply ctx.reg r.u),
+                           .list [.atom "strict", strict]]
+                | .error err => errReply err
+            | _, _ => .atom "bad-job"
+        | _ => .atom "bad-job"))]
+  | _ => .atom "bad-request"
 end C05
